@@ -94,15 +94,15 @@ func (k vKeyCfg) key() Key { return Key{Config: k.config, PrivateKey: k.priv, Se
 
 // vSealed is an honest (outer, inner) pair.
 type vSealed struct {
-	outer    vHello // with the real payload in place
-	echIndex int    // index of the ECH extension in outer.exts
-	encoded  []byte // EncodedClientHelloInner (plaintext)
-	enc      []byte
-	payload  []byte
-	aad      []byte
-	sender   int
+	outer     vHello // with the real payload in place
+	echIndex  int    // index of the ECH extension in outer.exts
+	encoded   []byte // EncodedClientHelloInner (plaintext)
+	enc       []byte
+	payload   []byte
+	aad       []byte
+	sender    int
 	kdf, aead uint16
-	id       byte
+	id        byte
 }
 
 // vSeal encrypts encodedInner to key k under suite (kdf,aead) inside the outer
